@@ -27,14 +27,14 @@ func main() {
 			Rule: "the concurrent form of C18 inside a live dkv.DB: the gated histories of C07 (a compaction parked before its swap while flushes keep adding level-0 tables, a flush parked before its swap, swaps released inside read windows), every Get/ScanPrefix compared with the sequential map before, during and after each compaction swap; non-trivial = >=1 episode actually parked; distinct by (options, op list) hash"},
 		&lib.Prop{ID: "C08", Part: "checkpoints", Level: "fault_enumeration", NCases: n(300, 8000), Run: c08Case,
 			Assumptions: append([]string{"database objects whose checkpoints are still retained stay referenced (dropping them is C09's subject)", "files are published atomically at Save; a crash image is the set of files durable after the first k storage operations", "a second Checkpoint is only called after the previous save completed (the operator waits synchronously)", "after a restore the job abandons the other checkpoints of the previous incarnation"}, c07Assume...),
-			Rule: "C07 histories with Checkpoint injected at seeded points in six modes (synchronous; writes during the save; save task held before the WAL save / before the list save while writes and flushes continue; flush parked before start / before swap when Checkpoint is called; directly after another checkpoint), with UpdateRetainedCheckpoints, forced GC rounds, restores into another directory and into the SAME directory, promotion of the restored db (chains up to depth 4) and, for every retained checkpoint, restores on CRASH IMAGES cut after individual storage operations following the handle (all when <=30, else first/last + seeded sample); every restored db is compared with the model snapshot taken at the Checkpoint call (Get over the universe, ScanPrefix(nil) and every prefix); non-trivial = >=1 checkpoint restored and compared; distinct by (options, op list) hash"},
+			Rule:        "C07 histories with Checkpoint injected at seeded points in seven modes (synchronous; writes during the save; save task held before the WAL save / before the list save while writes and flushes continue; flush parked before start / before swap when Checkpoint is called; directly after another checkpoint; a retention update's save of the checkpoints document held while the next checkpoint is taken and saved), with UpdateRetainedCheckpoints, forced GC rounds, restores into another directory and into the SAME directory, promotion of the restored db (chains up to depth 4) and, for every retained checkpoint, restores on CRASH IMAGES cut after individual storage operations following the handle (all when <=30, else first/last + seeded sample); every restored db is compared with the model snapshot taken at the Checkpoint call (Get over the universe, ScanPrefix(nil) and every prefix); non-trivial = >=1 checkpoint restored and compared; distinct by (options, op list) hash"},
 		&lib.Prop{ID: "C09", Part: "single", Level: "exploration", NCases: n(150, 4000), Run: c09Single,
 			Assumptions: []string{"every storage operation goes through the instrumented FileSystem (existence and content hash come from its log)", "forced GC rounds: a cleanup that has not run yet can only hide a violation, never fabricate one"},
-			Rule: "one database lifetime: write histories with synchronous checkpoints, UpdateRetainedCheckpoints over seeded subsets, forced GC rounds until the delete log is stable, under the C07 option classes; after every checkpoint / retention update / GC round the reference set = tables of the live level set (verif accessor) + WAL and table URIs of every checkpoint in the latest saved `checkpoints` document is checked to exist with the content hash it had when first referenced; after a retention update WAL files referenced only by dropped checkpoints must be gone; retained checkpoints are restored at the end; non-trivial = >=1 checkpoint and >3 reference checks; distinct by (options, ops) hash"},
+			Rule:        "one database lifetime: write histories with synchronous checkpoints, UpdateRetainedCheckpoints over seeded subsets, forced GC rounds until the delete log is stable, under the C07 option classes; after every checkpoint / retention update / GC round the reference set = tables of the live level set (verif accessor) + WAL and table URIs of every checkpoint in the latest saved `checkpoints` document is checked to exist with the content hash it had when first referenced; after a retention update WAL files referenced only by dropped checkpoints must be gone; retained checkpoints are restored at the end; non-trivial = >=1 checkpoint and >3 reference checks; distinct by (options, ops) hash"},
 		&lib.Prop{ID: "C09", Part: "shared", Level: "exploration", NCases: n(150, 4000), Run: c09Shared,
-			Assumptions: []string{"the source database of a restore is a dead process: its objects are pinned and never collected (the in-process variant is the known finding old-instance-gc)", "ownership policy of the harness mirrors the operator partition: exclusive unless a live peer's NeedsTable says true"},
-			Rule: "2..3 databases restored from one checkpoint of a source database (state in SST files), each owning a hash share of the keys and sharing the checkpoint's tables; they write, compact the shared tables away, take job checkpoints (same id everywhere), receive retention updates that drop the shared checkpoint, with forced GC rounds; after every such step the reference set of ALL live databases is checked as in part single and every database's owned rows are compared with its model; non-trivial = >3 reference checks; distinct by (options, n, ops) hash"},
+			Assumptions: []string{"a source database whose object is dropped BEFORE its successors are open is a dead process (pinned, no cleanup runs); in two thirds of the cases the source object is dropped in process once its successors are open (an in-place redeploy keeps the old database referenced until dkv.Open returned) and collected", "ownership policy of the harness mirrors the operator partition: exclusive unless a live peer's NeedsTable says true"},
+			Rule:        "2..3 databases restored from one checkpoint of a source database (state in SST files), each owning a hash share of the keys and sharing the checkpoint's tables; they write, compact the shared tables away, take job checkpoints (same id everywhere), receive retention updates that drop the shared checkpoint, with forced GC rounds; after every such step the reference set of ALL live databases is checked as in part single and every database's owned rows are compared with its model; every table of every checkpoint handle a database was restored from must be reported by its NeedsTable; scale-in phase: the databases become dead processes and two successors are restored from two of their checkpoints each (other-process views of the storage); non-trivial = >3 reference checks; distinct by (options, n, ops) hash"},
 		&lib.Prop{ID: "C09", Part: "kf-old-instance-gc", Level: "exploration", NCases: n(1, 1), Run: kfOldInstanceGC,
-			Rule: "deterministic reproducer of the known finding: in-place redeploy (new database opened from the old one's checkpoint in the same process, old object dropped, GC) — the dropped instance's table cleanups delete files the new database uses"},
+			Rule: "regression part of the repaired finding old-instance-gc (fix 7f5fd67): in-place redeploy (new database opened from the old one's checkpoint in the same process, old object dropped, GC) — the dropped instance's table cleanups must not delete files the new database uses"},
 	)
 }
